@@ -7,6 +7,7 @@ use crate::run::RunResult;
 use crate::scenario::*;
 
 pub struct Group {
+    pub inode: u64,
     pub start: u64,
     pub end: u64,
     pub offset: u64,
@@ -28,7 +29,9 @@ pub fn groups(w: &World) -> Vec<Group> {
         if let Some(g) = out.last_mut() {
             let contiguous = g.end == r.start;
             // the memory map shows a deleted file as "<path> (deleted)": not the same name as "<path>"
-            if contiguous && !g.name.is_empty() && g.name == r.name.0 && g.deleted == r.deleted {
+            // ... and two files can show the same name (memfds of one name, unlinked files that had the same
+            // path): a group is the mappings of one file
+            if contiguous && !g.name.is_empty() && g.name == r.name.0 && g.deleted == r.deleted && g.inode == r.inode {
                 g.end = r.end();
                 g.exec |= r.perms.as_bytes()[2] == b'x';
                 i += 1;
@@ -38,7 +41,7 @@ pub fn groups(w: &World) -> Vec<Group> {
                 // directly after an executable file mapping
                 let after_exec = g.exec;
                 // or between two parts of the same file
-                let between = rs.get(i + 1).map(|n| n.start == r.end() && n.name.0 == g.name && n.deleted == g.deleted).unwrap_or(false);
+                let between = rs.get(i + 1).map(|n| n.start == r.end() && n.name.0 == g.name && n.deleted == g.deleted && n.inode == g.inode).unwrap_or(false);
                 if after_exec || between {
                     g.end = r.end();
                     i += 1;
@@ -47,6 +50,7 @@ pub fn groups(w: &World) -> Vec<Group> {
             }
         }
         out.push(Group {
+            inode: r.inode,
             start: r.start,
             end: r.end(),
             offset: r.offset,
